@@ -14,7 +14,7 @@ CLAIMED = {
  "C02": ("2.C02", "Kani pointer/validity checks over the real unsafe blocks of jxl-grid subgrids and the bitstream refill for all shapes within bounds, plus disjointness/cover of split and into_groups; SIMD kernels outside."),
  "C03": ("2.C03", "Sample-arithmetic units of lossless Modular decoding (predictors and properties through the real incremental state, inverse RCT for all types and permutations, inverse squeeze, implicit palette entries at every integer depth, sample ops) decided against transcriptions of ISO/IEC 18181-1 Annex H: equality with the exact formulas and decode(encode(x)) == x for all values within bounds; not the composed image decoder."),
  "C12": ("2.C12", "Narrow (i16) and wide (i32) scalar kernels (tendency, inverse squeeze h/v, RCT, sample ops) produce identical samples for all inputs under the semantic '16 bits suffice' precondition (12 bits + sign); SIMD drivers outside."),
- "C04": ("2.C04", "Units of the entropy decoder against the format: hybrid-integer configuration parsing and value expansion as the exact inverse of the reference encoder for every configuration and every u32, field widths, ANS/prefix table units where tractable; not whole streams."),
+ "C04": ("2.C04", "Units of the entropy decoder against the format: hybrid-integer configuration parsing and value expansion as the exact inverse of the reference encoder for every configuration and every u32, field widths, one LZ77 step and one RLE-mode step (run length computed without wrapping) from symbolic states, ANS/prefix table units where tractable; not whole streams."),
  "C05": ("2.C05", "Region algebra used by frame composition (intersection, merge, contains, translate) decided against set semantics for all rectangles within the format's coordinate limits; blend kernels: see evidence (float kernels where tractable)."),
  "C06": ("2.C06", "Integer geometry that makes region-of-interest rendering sound: every resampling/padding/alignment step and the composed padding of the colour stage contain the dependency footprint of every requested pixel, for all rectangles and stage selections within bounds; group partition of the sample grid. Pixel equality of renders is outside."),
  "C15": ("2.C15", "Orientation maps of the interleaved frame buffer and of the sample stream against the specification's map for all 8 orientations and partly-outside copy regions, equality of stream and buffer, and the integer output conversions (rounding, clamping, 8/16-bit fast paths over 32-bit and 16-bit grids) for every sample value; on 3x2 pixels."),
